@@ -11,9 +11,14 @@ EXTENDS Naturals, Integers, Sequences, SequencesExt, FiniteSets, FiniteSetsExt, 
 DOT    == 0
 DOTDOT == -1
 
+\* The segment table is a constant so that trace modules can bind it to the table the driver
+\* derived from a real package (corpus decks); MC modules bind it to DefaultSegs below.
+CONSTANT Segs
+
 \* The seven kinds of the quantifier: plain, digit-suffixed, dotted, multi-extension,
-\* extension-less, upper-case, bracketed; "slide" is a string prefix of "slide21", so sibling-prefix directories (/slide vs /slide21) are in the domain.
-Segs == <<
+\* extension-less, upper-case, bracketed; "slide" is a string prefix of "slide21", so
+\* sibling-prefix directories (/slide vs /slide21) are in the domain.  Entries 10.. serve OpcPackage.
+DefaultSegs == <<
   [stem |-> "slide",           num |-> -1, exts |-> <<>>],
   [stem |-> "slide",           num |-> 21, exts |-> <<"xml">>],
   [stem |-> "a",               num |-> -1, exts |-> <<"b">>],
@@ -22,7 +27,10 @@ Segs == <<
   [stem |-> "P",               num |-> 3,  exts |-> <<"XML">>],
   [stem |-> "[Content_Types]", num |-> -1, exts |-> <<"xml">>],
   [stem |-> "slide",           num |-> 21, exts |-> <<>>],
-  [stem |-> "ppt",             num |-> -1, exts |-> <<>>]
+  [stem |-> "ppt",             num |-> -1, exts |-> <<>>],
+  [stem |-> "p",               num |-> -1, exts |-> <<"bin">>],
+  [stem |-> "q",               num |-> -1, exts |-> <<"bin">>],
+  [stem |-> "r",               num |-> -1, exts |-> <<"BIN">>]
 >>
 
 SegIds(n) == 1..n
